@@ -62,9 +62,16 @@ pub static mut G_E25: Expr = Expr::Invalid(Invalid { span: DUMMY_SP });
 pub static mut G_E26: Expr = Expr::Invalid(Invalid { span: DUMMY_SP });
 pub static mut G_E27: Expr = Expr::Invalid(Invalid { span: DUMMY_SP });
 pub static mut G_NEXT: u32 = 0;
-/// box `e` in the next free global slot
+/// harnesses whose real code BRANCHES on the shape of input expressions (parse_directive, is_constant) switch this on;
+/// for the others plain heap boxes are cheaper (fewer candidate objects per dereference).
+pub static mut G_ON: bool = false;
+pub fn use_global_inputs() { unsafe { G_ON = true; } }
+/// with global-backed inputs the real code may "free" a box that points at a global: nothing is ever freed (A-DROP)
+pub unsafe fn no_dealloc(_ptr: *mut u8, _layout: std::alloc::Layout) {}
+/// box `e` in the next free global slot (or on the heap when global inputs are off)
 pub fn bx(e: Expr) -> Box<Expr> {
     unsafe {
+        if !G_ON { return Box::new(e); }
         let slot = G_NEXT; G_NEXT += 1;
         match slot {
         0 => { G_E0 = e; Box::from_raw(core::ptr::addr_of_mut!(G_E0)) }
@@ -107,6 +114,7 @@ macro_rules! gvec_pool { ($fname:ident, $t:ty, $init:expr, $($s:ident),*) => {
             static mut NEXT: u32 = 0;
             let k = NEXT; NEXT += 1;
             let mut it = items.into_iter();
+            if !G_ON { return it.collect(); }
             let mut pool: [*mut [$t; 4]; 6] = [$(core::ptr::addr_of_mut!($s)),*];
             if N > 4 || k >= 6 { return it.collect(); }
             let p = pool[k as usize];
